@@ -160,4 +160,134 @@ theorem WaitingIn.step {P : Op → Prop} {sub : Subject σ Op} {s s' : Sys σ Op
         obtain ⟨op, hop, hP⟩ := hw u x h1 h1'
         exact ⟨op, by rw [h2, h3]; exact hop, hP⟩
 
+/-! ## Quiescence up to ping-pong (subjects whose waiters signal before they park, D28) -/
+
+/-- reachability by internal actions (resumptions and helper firings) only -/
+inductive ReachInt (sub : Subject σ Op) (s : Sys σ Op) : Sys σ Op → Prop
+  | refl : ReachInt sub s s
+  | step {s1 s2 : Sys σ Op} {a : Act} {obs : String} : ReachInt sub s s1 → a ∈ enabled s1 false → a.internal = true →
+      FunModel.Conc.step sub s1 a = some (s2, obs) → ReachInt sub s s2
+
+theorem ReachInt.reach {sub : Subject σ Op} {s0 s s' : Sys σ Op} (h0 : Reach sub s0 s) (h : ReachInt sub s s') :
+    Reach sub s0 s' := by
+  induction h with
+  | refl => exact h0
+  | step _ hen _ hs ih => exact .step ih (enabled_false_sub hen) hs
+
+theorem ReachInt.trans {sub : Subject σ Op} {s s1 s2 : Sys σ Op} (h1 : ReachInt sub s s1) (h2 : ReachInt sub s1 s2) :
+    ReachInt sub s s2 := by
+  induction h2 with
+  | refl => exact h1
+  | step _ hen hi hs ih => exact .step ih hen hi hs
+
+/-- the action is the resumption of a goroutine that parks again and leaves the subject alone -/
+def RePark (sub : Subject σ Op) (s : Sys σ Op) (a : Act) : Prop :=
+  ∃ (t : Nat) (s' : Sys σ Op) (obs : String) (th : Th Op) (c : Nat), a = .resume t ∧ step sub s a = some (s', obs) ∧
+    s'.subj = s.subj ∧ s'.ths[t]? = some th ∧ th.st = .parked c
+
+/-- quiescent up to ping-pong: whatever internal actions are taken from here on, the only ones
+    ever enabled are resumptions that park again without changing the subject -/
+def QuiescentPP (sub : Subject σ Op) (s : Sys σ Op) : Prop :=
+  ∀ s', ReachInt sub s s' → ∀ a ∈ enabled s' false, a.internal = true → RePark sub s' a
+
+theorem Quiescent.pp {sub : Subject σ Op} {s : Sys σ Op} (q : Quiescent s) : QuiescentPP sub s := by
+  have key : ∀ s', ReachInt sub s s' → s' = s := by
+    intro s' h
+    induction h with
+    | refl => rfl
+    | step _ hen hi _ ih => subst ih; rw [q _ hen] at hi; cases hi
+  intro s' h a hen hi
+  rw [key s' h] at hen
+  rw [q a hen] at hi; cases hi
+
+theorem QuiescentPP.step {sub : Subject σ Op} {s s' : Sys σ Op} (q : QuiescentPP sub s) (h : ReachInt sub s s') :
+    QuiescentPP sub s' :=
+  fun s'' h' a hen hi => q s'' (h.trans h') a hen hi
+
+/-! ### FIFO: who a `Signal` wakes -/
+
+/-- the parked list after the segment "Signal c; Wait on c" of thread `u` -/
+theorem repark_parked {sub : Subject σ Op} {s s' : Sys σ Op} {u : Nat} {obs : String} {th : Th Op} {op : Op} {c : Nat}
+    (hth : s.ths[u]? = some th) (hop : th.ops[th.pc]? = some op)
+    (ho : sub.resume s.subj u op th.cancelled = { st := s.subj, sigs := [.signal c], fin := .park c })
+    (hs : step sub s (.resume u) = some (s', obs)) :
+    s'.subj = s.subj ∧
+    s'.parked = (match s.parked.find? (fun p => p.2 == c) with
+      | some p => s.parked.filter (fun q => q.1 != p.1)
+      | none => s.parked) ++ [(u, c)] := by
+  simp only [step, hth, hop, Option.bind_eq_bind, Option.bind_some, ho, pure, Option.some.injEq, Prod.mk.injEq] at hs
+  rw [← hs.1]
+  simp only [applySeg, List.foldl_cons, List.foldl_nil, applySig, signal]
+  cases hf : s.parked.find? (fun p => p.2 == c) with
+  | none => simp [hf, modTh]
+  | some p => simp [hf, modTh, wake]
+
+theorem takeWhile_filter_comm {α : Type} (P Q : α → Bool) (l : List α) (h : ∀ x ∈ l, P x = false → Q x = true) :
+    (l.filter Q).takeWhile P = (l.takeWhile P).filter Q := by
+  induction l with
+  | nil => rfl
+  | cons x r ih =>
+    have ihr := ih (fun y hy => h y (List.mem_cons_of_mem _ hy))
+    by_cases hp : P x = true
+    · by_cases hq : Q x = true
+      · simp [List.filter_cons, List.takeWhile_cons, hp, hq, ihr]
+      · simp [List.filter_cons, List.takeWhile_cons, hp, hq, ihr]
+    · have hp' : P x = false := by simpa using hp
+      have hq := h x (List.mem_cons_self) hp'
+      simp [List.filter_cons, List.takeWhile_cons, hp', hq]
+
+theorem length_filter_lt {α : Type} (Q : α → Bool) (l : List α) (x : α) (hx : x ∈ l) (hq : Q x = false) :
+    (l.filter Q).length < l.length := by
+  induction l with
+  | nil => cases hx
+  | cons y r ih =>
+    simp only [List.mem_cons] at hx
+    rcases hx with rfl | hx
+    · simp only [List.filter_cons, hq, Bool.false_eq_true, ite_false, List.length_cons]
+      exact Nat.lt_succ_of_le (List.length_filter_le _ _)
+    · have := ih hx
+      by_cases hy : Q y = true
+      · simp only [List.filter_cons, hy, ite_true, List.length_cons]; omega
+      · simp only [List.filter_cons, hy, Bool.false_eq_true, ite_false, List.length_cons]; omega
+
+/-- the first entry for condition `c` stands before the entry of any other thread parked on `c` -/
+theorem first_before {l : List (Nat × Nat)} {c t : Nat} {p : Nat × Nat} (hnd : l.Pairwise (fun p q => p.1 ≠ q.1))
+    (hf : l.find? (fun q => q.2 == c) = some p)
+    (ht : (t, c) ∈ l) (hne : p.1 ≠ t) : p ∈ l.takeWhile (fun q => q.1 != t) := by
+  induction l with
+  | nil => cases ht
+  | cons x r ih =>
+    have hnd' := List.pairwise_cons.1 hnd
+    simp only [List.find?_cons] at hf
+    by_cases hx : (x.2 == c) = true
+    · simp only [hx, Option.some.injEq] at hf
+      subst hf
+      have : (x.1 != t) = true := by simpa using hne
+      simp [List.takeWhile_cons, this]
+    · simp only [hx] at hf
+      simp only [List.mem_cons] at ht
+      rcases ht with h | h
+      · subst h; simp at hx
+      · have hxt : (x.1 != t) = true ∨ (x.1 != t) = false := by cases (x.1 != t) <;> simp
+        rcases hxt with h1 | h1
+        · simp only [List.takeWhile_cons, h1, ite_true, List.mem_cons]
+          exact Or.inr (ih hnd'.2 hf h)
+        · -- x would be a second entry of thread t
+          exfalso
+          have hx1 : x.1 = t := by simpa using h1
+          exact hnd'.1 _ h hx1
+
+theorem takeWhile_append_left {α : Type} (P : α → Bool) (A B : List α) (h : ∃ x ∈ A, P x = false) :
+    (A ++ B).takeWhile P = A.takeWhile P := by
+  induction A with
+  | nil => obtain ⟨x, hx, _⟩ := h; cases hx
+  | cons a r ih =>
+    by_cases hp : P a = true
+    · obtain ⟨x, hx, hpx⟩ := h
+      simp only [List.mem_cons] at hx
+      rcases hx with rfl | hx
+      · rw [hp] at hpx; cases hpx
+      · simp [List.takeWhile_cons, hp, ih ⟨x, hx, hpx⟩]
+    · simp [List.takeWhile_cons, hp]
+
 end FunModel.Conc
